@@ -292,7 +292,7 @@ impl<'a> Gen<'a> {
         tree
     }
 
-    fn rel_target(from_dir: &str, to: &str) -> String {
+    pub fn rel_target(from_dir: &str, to: &str) -> String {
         let f: Vec<&str> = from_dir.split('/').filter(|c| !c.is_empty()).collect();
         let t: Vec<&str> = to.split('/').filter(|c| !c.is_empty()).collect();
         let mut k = 0;
